@@ -60,6 +60,33 @@ func NewSortReg() *SortReg {
 		tags: map[string]int{}, boxes: map[string]bool{}, inprog: map[string]bool{}}
 	r.decls = append(r.decls, "(declare-datatypes ((Iface 0)) (((mk_Iface (itag Int) (ipl Int)))))")
 	r.seqSort("Int", types.Typ[types.Byte], "Str")
+	r.decls = append(r.decls, "(declare-const emptystr Str)", "(assert (= (len_Str emptystr) 0))")
+	// strings are pure contents: every empty string is emptystr, and it is the unit of cat
+	r.decls = append(r.decls,
+		"(assert (forall ((s Str)) (! (=> (= (len_Str s) 0) (= s emptystr)) :pattern ((len_Str s)))))",
+		"(assert (forall ((s Str)) (! (= (cat_Str emptystr s) s) :pattern ((cat_Str emptystr s)))))",
+		"(assert (forall ((s Str)) (! (= (cat_Str s emptystr) s) :pattern ((cat_Str s emptystr)))))")
+	// []byte: content (a Str) plus a nil flag; strings are pure content
+	r.seqs["Bytes"] = &SeqInfo{Sort: "Bytes", Elem: "Int", Len: "len_Bytes", At: "at_Bytes", IsNil: "isnil_Bytes", Cat: "cat_Bytes", Sub: "sub_Bytes",
+		Upd: "upd_Bytes", Nil: "nil_Bytes", ElemGo: types.Typ[types.Byte]}
+	r.decls = append(r.decls,
+		"(declare-datatypes ((Bytes 0)) (((mk_Bytes (bcontent Str) (bnil Bool)))))",
+		"(declare-fun len_Bytes (Bytes) Int)",
+		"(assert (forall ((b Bytes)) (! (= (len_Bytes b) (ite (bnil b) 0 (len_Str (bcontent b)))) :pattern ((len_Bytes b)))))",
+		"(define-fun at_Bytes ((b Bytes) (i Int)) Int (at_Str (bcontent b) i))",
+		"(define-fun isnil_Bytes ((b Bytes)) Bool (bnil b))",
+		"(define-fun nil_Bytes () Bytes (mk_Bytes emptystr true))",
+		"(declare-fun cnt_Bytes (Bytes) Str)",
+		"(assert (forall ((b Bytes)) (! (= (cnt_Bytes b) (ite (bnil b) emptystr (bcontent b))) :pattern ((cnt_Bytes b)))))",
+		"(declare-fun cat_Bytes (Bytes Bytes) Bytes)",
+		"(assert (forall ((a Bytes) (b Bytes)) (! (= (cat_Bytes a b) (mk_Bytes (cat_Str (cnt_Bytes a) (cnt_Bytes b)) (and (bnil a) (= (len_Bytes b) 0)))) :pattern ((cat_Bytes a b)))))",
+		"(define-fun sub_Bytes ((s Bytes) (a Int) (b Int)) Bytes (mk_Bytes (sub_Str (bcontent s) a b) (bnil s)))",
+		"(define-fun upd_Bytes ((s Bytes) (k Int) (v Int)) Bytes (mk_Bytes (upd_Str (bcontent s) k v) (bnil s)))",
+		"(define-fun tobytes ((s Str)) Bytes (mk_Bytes s false))",
+		"(declare-fun tostring (Bytes) Str)",
+		"(assert (forall ((b Bytes)) (! (= (tostring b) (cnt_Bytes b)) :pattern ((tostring b)))))",
+		"(define-fun ext_Bytes ((a Bytes) (b Bytes)) Bool (ext_Str (bcontent a) (bcontent b)))",
+	)
 	// bytes are in [0,256)
 	r.decls = append(r.decls, "(assert (forall ((s Str) (i Int)) (! (and (<= 0 (at_Str s i)) (< (at_Str s i) 256)) :pattern ((at_Str s i)))))")
 	return r
@@ -161,7 +188,7 @@ func (r *SortReg) SortOf(t types.Type) string {
 	case *types.Slice:
 		es := r.SortOf(tt.Elem())
 		if b, ok := tt.Elem().Underlying().(*types.Basic); ok && (b.Kind() == types.Byte || b.Kind() == types.Uint8) {
-			return "Str"
+			return "Bytes"
 		}
 		name := "Seq_" + mangle(es)
 		r.seqSort(es, tt.Elem(), name)
